@@ -9,14 +9,14 @@ from .. import encode, gen_regex, model, runner, scripted_random as SR, sexp
 from ..common import d42  # noqa: F401
 from d42.generation import Random, RegexGenerator
 
-MODULE = "D42.Props.C09"
+MODULE = "D42.Props.C09Match"
 THEOREMS = ["genSeq_sound", "genRe_sound", "genAlt_sound", "genRe_unsup", "genClsItem_unsup", "rep_request",
-            "genSeq_error_kind", "genNotIn_sound", "genClsItem_sound", "repeatG_sound"]
-FILES = ["D42/Model/Data.lean", "D42/Model/Gen.lean", "D42/Gen/Consts.lean", "D42/Props/C09.lean"]
+            "genSeq_error_kind", "genNotIn_sound", "genClsItem_sound", "repeatG_sound", "matchSeqB_iff", "matchB_iff", "repN_bound", "genSeq_matchB", "matchB_example"]
+FILES = ["D42/Model/Data.lean", "D42/Model/Gen.lean", "D42/Gen/Consts.lean", "D42/Props/C09.lean", "D42/Model/RegexMatch.lean", "D42/Props/C09Match.lean"]
 
 EVIDENCE = dict(
     level="proof",
-    checker_cmd="lake build D42.Props.C09 d42model && lake env lean <#print axioms audit>",
+    checker_cmd="lake build D42.Props.C09Match d42model && lake env lean <#print axioms audit>",
     trusted=["Lean kernel; standard axioms", "sre_parse output converted to the model's Re tree by harness/encode.py (trusted, ~60 lines)",
              "CPython re.fullmatch implements the textbook language semantics for the supported constructs",
              "RegexGenerator alphabets and max_repeat regenerated into D42/Gen/Consts.lean on this run"],
@@ -161,8 +161,85 @@ def run(ctx):
                 ctx.breakage("correspondence", "regex generator view (requests, string) differs between model and code",
                              pattern=p, policy=pol, detail=f"real {k} {v!r}\nmodel {sexp.dumps(r)[:400] if not isinstance(r, str) else r}")
     ctx.cov["corr_disagreements"] = bad
+    match_correspondence(ctx, [p for p, u in pats if u is None])
     for p, u in pats[:6]:
         ctx.sample({"pattern": p, "unsupported": u})
+
+
+def _plain_anchors(items, sre):
+    """only ^ $ \\A \\Z (an anchor that matches the empty string at the ends), no \\b / \\B, nothing unsupported"""
+    for op, av in items:
+        if op == sre.AT and av not in (sre.AT_BEGINNING, sre.AT_END, sre.AT_BEGINNING_STRING, sre.AT_END_STRING):
+            return False
+        if op == sre.SUBPATTERN and not _plain_anchors(av[3], sre):
+            return False
+        if op in (sre.MAX_REPEAT, sre.MIN_REPEAT) and not _plain_anchors(av[2], sre):
+            return False
+        if op == sre.BRANCH and not all(_plain_anchors(a, sre) for a in av[1]):
+            return False
+    return True
+
+
+def match_correspondence(ctx, patterns):
+    """the declarative language `Matches` (through the matcher proved to decide it, matchSeqB_iff) against CPython's
+    re.fullmatch, on short strings: matches produced by the real generator with a small repeat cap, their one-step
+    mutations, and random strings over the pattern's own characters plus a few strangers (non-ASCII digits and letters)"""
+    import sys
+    from d42.generation import RegexGenerator, Random
+    sre = sys.modules.get("re._parser") or __import__("sre_parse")
+    r = ctx.rnd
+    strangers = ["\n", "_", "0", "9", "a", "Z", "é", "٣", "५", " ", "-", "~"]
+    reqs, exp, info = [], [], []
+    for p in patterns:
+        try:
+            parsed = sre.parse(p)
+            tree = encode.enc_re_items(parsed)
+        except Exception:  # noqa: BLE001
+            continue
+        if "unsup" in sexp.dumps(tree) or not _plain_anchors(parsed, sre) or len(sexp.dumps(tree)) > 400:
+            ctx.count("match_skipped_pattern")
+            continue
+        alphabet = sorted(set(ch for ch in p if ch.isalnum() or ch in "_- ")) or ["a"]
+        cands = set()
+        g = RegexGenerator(Random(), max_repeat=2)
+        for _ in range(4):
+            try:
+                cands.add(g.generate(p))
+            except Exception:  # noqa: BLE001
+                pass
+        for base in list(cands):
+            if not base:
+                continue
+            i = r.randrange(len(base))
+            cands.update([base[:i] + base[i + 1:], base[:i] + base[i] + base[i:], base[:i] + r.choice(alphabet + strangers) + base[i + 1:],
+                          base + r.choice(alphabet + strangers), r.choice(alphabet + strangers) + base])
+        for _ in range(3):
+            cands.add("".join(r.choice(alphabet + strangers) for _ in range(r.randint(0, 5))))
+        for sv in cands:
+            if len(sv) > 8:
+                ctx.count("match_skipped_long")
+                continue
+            try:
+                want = fullmatch(p, sv)
+            except _Timeout:
+                continue
+            nonascii = sorted(set(ch for ch in sv if ord(ch) >= 128))
+            ds = [ord(ch) for ch in nonascii if re.fullmatch(r"\d", ch)]
+            ws = [ord(ch) for ch in nonascii if re.fullmatch(r"\w", ch)]
+            reqs.append(["rxmatch", ["re"] + tree, encode.enc_str(sv), ["digits"] + ds, ["words"] + ws])
+            exp.append("1" if want else "0")
+            info.append((p, sv))
+    res = model.run_batch(reqs)
+    bad = 0
+    for got, want, (p, sv) in zip(res, exp, info):
+        ctx.count("match_corr_cases")
+        ctx.count("match_corr_accepting" if want == "1" else "match_corr_rejecting")
+        if got != want:
+            bad += 1
+            if bad <= 10:
+                ctx.breakage("correspondence", "the matcher that decides `Matches` and re.fullmatch disagree: the language the "
+                             "theorems talk about is not Python's", pattern=p, string=sv, fullmatch=want, model=str(got))
+    ctx.cov["match_corr_disagreements"] = bad
 
 
 def replay(path):
